@@ -68,7 +68,7 @@ STUB = ["IterSched (iterator scheduler)", "SimLoop + SimMap/SimSeq (tasks config
 ASSUMPTIONS = [
     "sequential specification: fresh environment, caching off, fresh compile, isolated evaluation on the same document",
     "thread pre-emption points are source lines inside jsonpath/ (not bytecodes)",
-    "the compiled query is 'unchanged' if str(), == to a pristine recompile and its public selectors tuple (same object, same elements) are unchanged; private attributes are not fingerprinted",
+    "the compiled query is 'unchanged' if str(), == to a pristine recompile and its public selector sequence (compared with ==) are unchanged; private attributes are not fingerprinted",
     "object identity of matches is not compared; identity of document nodes is (replacing a node by an equal copy is a write)",
 ]
 PROBES = [
@@ -331,18 +331,20 @@ class World:
 
     @staticmethod
     def _selinfo(c: Any) -> Any:
+        """The public selector sequence of a compiled query (or of each operand of a compound one).
+
+        Held by reference: a later comparison with == notices a selector that was replaced by a
+        different one; it does not insist on object identity (a computed `selectors` property is fine)."""
         sels = getattr(c, "selectors", None)
         if sels is not None:
-            return (id(sels), [id(s) for s in sels])
-        paths = getattr(c, "paths", None)
-        first = getattr(c, "path", None)
+            return list(sels)
         out: List[Any] = []
+        first = getattr(c, "path", None)
         if first is not None:
             out.append(World._selinfo(first))
-        if paths is not None:
-            out.append(id(paths))
-            for _op, p in paths:
-                out.append(World._selinfo(p))
+        for op, p in getattr(c, "paths", ()) or ():
+            out.append(op)
+            out.append(World._selinfo(p))
         return out
 
     @staticmethod
